@@ -27,6 +27,7 @@ type GeCase struct {
 	Guard            int
 	Trim             bool
 	Seed             uint64
+	Tail             int // unused elements at the end of a, x and y (callers pass whole vectors)
 }
 
 // blasGeom addresses the n logical elements of a BLAS vector with increment
@@ -38,8 +39,9 @@ func blasGeom(n, inc int) geom {
 // CheckGe returns the check function of the level-2 kernels.
 //
 // Domain: m, n >= 1 (Dger/Dgemv return before calling the kernels when a
-// dimension is zero), lda >= n, len(a) = lda*(m-1)+n, vectors of exactly the
-// addressed length, finite data. Ger: positive increments only (blas/gonum
+// dimension is zero), lda >= n, len(a) >= lda*(m-1)+n, vectors of the
+// addressed length plus 0..3 unused elements (callers pass whole slices), finite
+// data. Ger: positive increments only (blas/gonum
 // routes negative increments around the kernel). GemvN/GemvT: any non-zero
 // increments, passed as uintptr(int) exactly as Dgemv does.
 //
@@ -79,7 +81,11 @@ func CheckGe[T Real](pkg string, fns GeFns[T]) func(GeCase) *vk.Failure {
 		case "GemvT":
 			lenX, lenY = m, n
 		}
-		gx, gy := blasGeom(lenX, incX), blasGeom(lenY, incY)
+		tail := c.Tail
+		if tail < 0 || tail > 8 {
+			tail = 0
+		}
+		gx, gy := incGeom(lenX, incX, 0, tail), incGeom(lenY, incY, 0, tail)
 		alpha, beta := T(c.Alpha), T(c.Beta)
 		guard := c.Guard
 		if guard < 0 || guard >= len(guardModes) {
@@ -105,7 +111,7 @@ func CheckGe[T Real](pkg string, fns GeFns[T]) func(GeCase) *vk.Failure {
 
 		rng := vk.NewSplitMix(c.Seed)
 		gen := &Gen{R: rng, W32: k.W32, Cls: ClsFinite}
-		va := NewVec[T](lda*(m-1)+n, offA, gdA, 4, c.Trim)
+		va := NewVec[T](lda*(m-1)+n+tail, offA, gdA, 4, c.Trim)
 		vx := NewVec[T](gx.Len, offX, gdX, 1, c.Trim)
 		vy := NewVec[T](gy.Len, offY, gdY, 2, c.Trim)
 		defer func() { va.Free(); vx.Free(); vy.Free() }()
@@ -251,7 +257,7 @@ func RunGe[T Real](t *testing.T, pkg string, fns GeFns[T]) {
 							cnt++
 							r := vk.NewSplitMix(cnt * 0x9e3779b97f4a7c15)
 							c := GeCase{Fn: fn, M: m, N: n, LdaPad: []int{0, 1, 3}[int(cnt)%3], OffA: int(cnt) % 8, OffX: (m + ti) % 8, OffY: (n + 3*ti) % 8,
-								IncX: tp[0], IncY: tp[1], Trim: cnt%2 == 0, Seed: cnt * 0x2545F4914F6CDD1D}
+								IncX: tp[0], IncY: tp[1], Tail: int(cnt/3) % 3, Trim: cnt%2 == 0, Seed: cnt * 0x2545F4914F6CDD1D}
 							if g := int(r.Uint64() % 20); g < len(guardModes) {
 								c.Guard = g
 							}
@@ -281,6 +287,7 @@ func RunGe[T Real](t *testing.T, pkg string, fns GeFns[T]) {
 					c.Guard = rapid.IntRange(1, len(guardModes)-1).Draw(t, "guard")
 				}
 				c.Trim = rapid.Bool().Draw(t, "trim")
+				c.Tail = rapid.IntRange(0, 3).Draw(t, "tail")
 				c.Seed = rapid.Uint64().Draw(t, "seed")
 				return c
 			}, check)
